@@ -82,11 +82,12 @@ pub fn run(ctx: &mut Ctx) {
         ctx.count_n("attempts_accepted", h.verdicts.iter().filter(|v| **v == 1).count() as u64);
         if k == 1 { ctx.sample(format!("history of {} attempts: {:?} -> verdicts {:?}", n, &h.kinds[..n.min(12)], &h.verdicts[..n.min(12)])); }
         // op 7: client values
-        let sd: [u8; 16] = rng.arr(); let cc: [u8; 16] = rng.arr();
+        let sd: [u8; 16] = match k % 4 { 0 => [0u8; 16], 1 => [0xff; 16], _ => rng.arr() }; let cc: [u8; 16] = rng.arr();
         vr::install_tape(&cc);
         let r = base.client.calculate_reconnect_values(sd);
         vr::remove_tape(); vr::take_log();
         ctx.case(7, "client reconnect values", &[un.as_ref().as_bytes(), &base.kc, &sd, &cc], &[&[0], &r.challenge_data, &r.proof]);
+        if r.challenge_data != cc || r.proof != sha(&[un.as_ref().as_bytes(), &cc, &sd, &base.kc]) { fails.push(format!("{{\"what\":\"client reconnect values are not (drawn challenge, H(U|cd|sd|K))\",\"user\":{},\"K\":\"{}\",\"server_challenge\":\"{}\",\"drawn\":\"{}\"}}", jstr(&base.u), hex(&base.kc), hex(&sd), hex(&cc))); }
     }
     // ---- implementation-only oracle: long histories, with injected and with real randomness ----
     let mut rng = ctx.rng("oracle");
